@@ -127,6 +127,8 @@ package main
 // is at least every stored message number.
 //@ func initTopicGrp(t *Topic) (err error)
 //@   requires [C01] t != nil && rowMax[t.name] <= hwm[t.name]
+// (C03: a topic whose stored state is 'suspended' refuses publishes however long ago it was suspended: loading it restores the flag)
+//@   ensures [C03] suspended_loads_read_only: err == nil && stopic != nil && stopic.State == types.StateSuspended ==> (t.status & topicStatusReadOnly) != 0
 //@   ensures [C01] lastID_restored: err == nil ==> t.lastID == hwm[t.name] && rowMax[t.name] <= t.lastID
 //@   modifies inferred
 //@ func initTopicSys(t *Topic) (err error)
@@ -599,6 +601,8 @@ package main
 //@   ensures [C09] marks_from_own_rows: err == nil && !(stopic != nil && len(subs) == 2) && userID1 != userID2 ==> t.perUser[userID2].readID == sub2.ReadSeqId && t.perUser[userID2].recvID == sub2.RecvSeqId && t.perUser[userID1].readID == sub1.ReadSeqId && t.perUser[userID1].recvID == sub1.RecvSeqId
 //@   modifies inferred
 //@   ensures [C01] lastID_restored: err == nil ==> t.lastID == hwm[t.name] && rowMax[t.name] <= t.lastID
+// (C03: a topic whose stored state is 'suspended' refuses publishes however long ago it was suspended: loading it restores the flag)
+//@   ensures [C03] suspended_loads_read_only: err == nil && stopic != nil && stopic.State == types.StateSuspended ==> (t.status & topicStatusReadOnly) != 0
 //@   assert at call store.TopicsPersistenceInterface.CreateP2P [C07] peer_given_p2p: ($2.ModeGiven & ^types.ModeCP2P) == 0 && ($2.ModeGiven & types.ModeApprove) != 0 && ($2.ModeWant & ^types.ModeCP2P) == 0 && ($2.ModeWant & types.ModeApprove) != 0
 //@   assert at call store.TopicsPersistenceInterface.CreateP2P [C07] requester_want_p2p: ($1.ModeWant & ^types.ModeCP2P) == 0 && ($1.ModeWant & types.ModeApprove) != 0
 //@   assert at call store.TopicsPersistenceInterface.CreateP2P [C07] requester_given_p2p: ($1.ModeGiven & ^types.ModeCP2P) == 0
